@@ -24,7 +24,7 @@ HOOK_COMMITS = ["6998a80 verif hook: worker-pool limits and forced copy path beh
 PROPS = {
     "C14": dict(
         facts=True,
-        families=[dict(name="c14"), dict(name="race", race=True)],
+        families=[dict(name="c14"), dict(name="race", race=True), dict(name="hist", args=["-specs", "7", "-n", "40"])],
         level_text="Theorems C14_checksum / C14_error_propagates / C14_sequence: for every byte string, read "
                    "chunking, buffer size, pool state and sequence of computations the model of ChecksumBuffer "
                    "returns hex(H(data)) for any incremental hasher meeting the Reset/Write/Sum contract; "
@@ -56,7 +56,8 @@ PROPS = {
     ),
     "C05": dict(
         facts=True,
-        families=[dict(name="edits", args=["-specs", "6,26"]), dict(name="tree", args=["-specs", "15"]), dict(name="same"), dict(name="pipe", args=["-specs", "6"])],
+        families=[dict(name="edits", args=["-specs", "6,26"]), dict(name="tree", args=["-specs", "15"]), dict(name="same"), dict(name="pipe", args=["-specs", "6"]),
+                  dict(name="oldschema", args=["-specs", "15"])],
         level_text="Theorems C05_iff (ContentsMatch is true exactly when the workspace entry, links followed, equals the "
                    "tree the recorded checksum stands for and that tree is in the cache), C05_file_iff, C05_skip, "
                    "C05_after_commit, C05_short_circuit_agrees, C05_same_contents (whole-buffer comparison = byte "
@@ -151,7 +152,8 @@ PROPS = {
                      "Go channel, select and errgroup semantics as modelled"],
     ),
     "C01": dict(
-        families=[dict(name="tree", args=["-specs", "3,5,11,14"]), dict(name="pipe", args=["-specs", "3,11"])],
+        families=[dict(name="tree", args=["-specs", "3,5,11,14"]), dict(name="pipe", args=["-specs", "3,11"]),
+                  dict(name="hist", args=["-specs", "3,5,11,14"])],
         level_text="Theorems C01_roundtrip (commit then checkout into an absent slot reproduces the tracked tree, links "
                    "followed, for both strategies on either side), C01_commit_ok, C01_commit_keeps_logical(_links), "
                    "C01_invariants_preserved/_initial, C01_nonutf8_fails over the model of commit.go/checkout.go with the "
